@@ -7,6 +7,7 @@ import (
 	"encoding/hex"
 	"encoding/json"
 	"fmt"
+	"net"
 	"net/http"
 	"net/http/httptest"
 	"strings"
@@ -97,6 +98,19 @@ func rtspPubTo(w *world.W, stage string, sdp []byte) (*world.RtspPeer, error) {
 		return p, err
 	}
 	s, _ := ref.ParseSdp(sdp)
+	if strings.HasPrefix(stage, "pub-record-udp-") {
+		// only one of the announced tracks is set up, over UDP (lal binds a real loopback port pair)
+		k := 0
+		if stage == "pub-record-udp-audio-only" {
+			k = 1
+		}
+		p.Request("SETUP", rtspUri+"/"+s.Media[k].Control, map[string]string{"Transport": "RTP/AVP/UDP;unicast;client_port=40000-40001;mode=record"}, nil)
+		if err := w.Settle(); err != nil {
+			return p, err
+		}
+		p.Request("RECORD", rtspUri, map[string]string{"Range": "npt=0.000-"}, nil)
+		return p, w.Settle()
+	}
 	for i, m := range s.Media {
 		p.Request("SETUP", rtspUri+"/"+m.Control, map[string]string{"Transport": fmt.Sprintf("RTP/AVP/TCP;unicast;interleaved=%d-%d;mode=record", 2*i, 2*i+1)}, nil)
 	}
@@ -137,6 +151,19 @@ func rtspSubTo(w *world.W, stage string) (*world.RtspPeer, error) {
 		}
 	}
 	s, _ := ref.ParseSdp(sdp)
+	if strings.HasPrefix(stage, "pub-record-udp-") {
+		// only one of the announced tracks is set up, over UDP (lal binds a real loopback port pair)
+		k := 0
+		if stage == "pub-record-udp-audio-only" {
+			k = 1
+		}
+		p.Request("SETUP", rtspUri+"/"+s.Media[k].Control, map[string]string{"Transport": "RTP/AVP/UDP;unicast;client_port=40000-40001;mode=record"}, nil)
+		if err := w.Settle(); err != nil {
+			return p, err
+		}
+		p.Request("RECORD", rtspUri, map[string]string{"Range": "npt=0.000-"}, nil)
+		return p, w.Settle()
+	}
 	for i, m := range s.Media {
 		p.Request("SETUP", rtspUri+"/"+m.Control, map[string]string{"Transport": fmt.Sprintf("RTP/AVP/TCP;unicast;interleaved=%d-%d", 2*i, 2*i+1)}, nil)
 	}
@@ -185,7 +212,12 @@ func runCase(c protox.Case) (res protox.Result) {
 			sdp = sdpHevc()
 		}
 		var p *world.RtspPeer
-		p, err = rtspPubTo(w, "pub-record", sdp)
+		pubStage := "pub-record"
+		udp := strings.HasPrefix(d.Stage, "udp-")
+		if udp {
+			pubStage = "pub-record-" + d.Stage
+		}
+		p, err = rtspPubTo(w, pubStage, sdp)
 		if err == nil {
 			victim = p.Conn
 			ps := logic.VerifRtspPubSession(w.SM, "s")
@@ -196,7 +228,9 @@ func runCase(c protox.Case) (res protox.Result) {
 			bi := rtsp.VerifBaseIn(ps)
 			for _, it := range items(in) {
 				it := it
-				if len(it) > 0 && it[0] == 'C' { // RTCP item marker
+				if len(it) > 0 && it[0] == 'C' && udp { // a datagram on the RTCP socket
+					err = guard(w, func() { rtsp.VerifOnReadRtcpFrom(bi, it[1:], &net.UDPAddr{IP: net.IPv4(127, 0, 0, 1), Port: 40001}) })
+				} else if len(it) > 0 && it[0] == 'C' { // RTCP item marker
 					err = guard(w, func() { rtsp.VerifOnReadRtcp(bi, it[1:]) })
 				} else if len(it) > 0 {
 					err = guard(w, func() { rtsp.VerifOnReadRtp(bi, it[1:]) })
